@@ -215,6 +215,12 @@ def check_decision(call, placements, report):
             if exists_assignment(running_only + merged, call["workers"]):
                 # only a previously scheduled, not yet started task is in the way
                 kind = "joint_capacity_vs_pending_scheduled"
+            # facts for the known-findings classifier (mechanism, not case): which tasks collide, and whether a previously
+            # scheduled task in the way is one whose planned start has already passed (its placement is being retried)
+            call["joint_facts"] = {
+                "colliding": [i["task"] for i in merged],
+                "deferred_pending": any(s.get("planned") is not None and s["planned"] < now
+                                        for tid, s in call["scheduled"].items() if tid not in redecided)}
             report(kind, f"placements {[(i['task'], i['start'], i['end'], i['demand'], i['worker']) for i in merged]} "
                                      f"with fixed {[(i['task'], i['start'], i['end'], i['demand'], i['worker']) for i in fixed]} "
                                      f"exceed capacity {call['workers']}")
